@@ -31,3 +31,4 @@ Definition k_flow_read_asn1_integer : pfun :=
     ] [];
     SReturn (PTuple [(PName "int_value"); (PName "consumed")])
   ] |}.
+Definition k_flow_read_asn1_integer_defaults : list (string * pexp) := [("tag", PNone); ("header", PNone); ("hint", PNone)].
